@@ -63,7 +63,7 @@ static void run_case(long idx)
             case 2: for (size_t i = 0; i < n; i++) x[i] = (uint8_t)(200 + vr_u(&r, 56)); break;                                                        /* high-byte alphabet */
             default: gen_data(&r, x, n, (int)vr_u(&r, DF_NB)); }
         size_t const cap = ZSTD_compressBound(n) + 64; uint8_t* dst = (uint8_t*)malloc(cap); uint8_t* out = (uint8_t*)malloc(n + 8);
-        int cm = (int)vr_u(&r, CM_NB); if (accidental && (cm == CM_USINGDICT)) cm = CM_LOAD; int const lvl = (istyle >= 4 && vr_chance(&r, 1, 2)) ? (int)vr_range(&r, 1, 5) : (int)vr_range(&r, -2, 19); int const attach = (int)vr_u(&r, 4); int const dds = (int)vr_u(&r, 3) == 0; int const noID = (int)vr_u(&r, 6) == 0;
+        int cm = (int)vr_u(&r, CM_NB); if (accidental && (cm == CM_USINGDICT)) cm = CM_LOAD; int lvl = (istyle >= 4 && vr_chance(&r, 1, 2)) ? (int)vr_range(&r, 1, 5) : (int)vr_range(&r, -2, 19); int const attach = (int)vr_u(&r, 4); int const dds = (cm == CM_CDICT_COPY || cm == CM_CDICT_REF) ? (int)vr_u(&r, 2) : ((int)vr_u(&r, 3) == 0); if (dds && vr_chance(&r, 1, 2)) lvl = (int)vr_range(&r, 5, 12);      /* dedicated dictionary search exists for the greedy..lazy2 strategies */ int const noID = (int)vr_u(&r, 6) == 0;
         ZSTD_CCtx* c = ZSTD_createCCtx(); size_t cs; ZSTD_CDict* cd2 = NULL; int prefix = 0;
         int const tcb = (istyle == 5 ? vr_chance(&r, 2, 3) : vr_chance(&r, 1, 5)) ? (int)vr_range(&r, 1340, 9000) : 0; if (tcb) ZSTD_CCtx_setParameter(c, ZSTD_c_targetCBlockSize, tcb);      /* effective for the compress2-based supply modes */
         ZSTD_CCtx_setParameter(c, ZSTD_c_compressionLevel, lvl); ZSTD_CCtx_setParameter(c, ZSTD_c_forceAttachDict, attach); if (dds) ZSTD_CCtx_setParameter(c, ZSTD_c_enableDedicatedDictSearch, 1); if (noID) ZSTD_CCtx_setParameter(c, ZSTD_c_dictIDFlag, 0); ZSTD_CCtx_setParameter(c, ZSTD_c_checksumFlag, (int)vr_u(&r, 2));
